@@ -14,6 +14,7 @@ import (
 	"fmt"
 	"go/ast"
 	"go/constant"
+	"go/importer"
 	"go/parser"
 	"go/printer"
 	"go/token"
@@ -28,6 +29,13 @@ type fakeImporter struct{ pkgs map[string]*types.Package }
 func (f *fakeImporter) Import(path string) (*types.Package, error) {
 	if p, ok := f.pkgs[path]; ok {
 		return p, nil
+	}
+	if path == "math" {
+		// real constants of package math (math.MaxUint16, math.MaxUint64, ...) so that `const X = math.MaxUint16` resolves
+		if rp, err := importer.ForCompiler(token.NewFileSet(), "source", nil).Import(path); err == nil {
+			f.pkgs[path] = rp
+			return rp, nil
+		}
 	}
 	name := path[strings.LastIndex(path, "/")+1:]
 	p := types.NewPackage(path, name)
